@@ -22,12 +22,12 @@ import (
 
 var blackIdentifier = "_"
 
-// RenameBlankIdentifier returns a signature where all blank parameter names are renamed.
+// RenameBlankIdentifier returns a signature where all blank and unnamed parameters are given names.
 func RenameBlankIdentifier(sig *types.Signature) *types.Signature {
 	return RenameBlankIdentifierWith(sig, "param_")
 }
 
-// RenameBlankIdentifierWith returns a signature where all blank parameter names are renamed.
+// RenameBlankIdentifierWith returns a signature where all blank and unnamed parameters are given names.
 // The given prefix is used to rename.
 func RenameBlankIdentifierWith(sig *types.Signature, prefix string) *types.Signature {
 	params := sig.Params()
@@ -38,9 +38,15 @@ func RenameBlankIdentifierWith(sig *types.Signature, prefix string) *types.Signa
 	return types.NewSignature(sig.Recv(), renamedTuple, sig.Results(), sig.Variadic())
 }
 
+// isBlank reports whether a parameter cannot be referred to: it is named _ or has no name at all,
+// as in func(int, string).
+func isBlank(name string) bool {
+	return name == blackIdentifier || name == ""
+}
+
 func hasBlankIdentifier(tup *types.Tuple) bool {
 	for i := 0; i < tup.Len(); i++ {
-		if tup.At(i).Name() == blackIdentifier {
+		if isBlank(tup.At(i).Name()) {
 			return true
 		}
 	}
@@ -51,7 +57,7 @@ func rename(tup *types.Tuple, prefix string) *types.Tuple {
 	vars := make([]*types.Var, tup.Len())
 	for i := range vars {
 		varValue := tup.At(i)
-		if varValue.Name() == blackIdentifier || strings.HasPrefix(varValue.Name(), prefix) {
+		if isBlank(varValue.Name()) || strings.HasPrefix(varValue.Name(), prefix) {
 			varValue = types.NewVar(varValue.Pos(), varValue.Pkg(), prefix+strconv.Itoa(i), varValue.Type())
 		}
 		vars[i] = varValue
